@@ -3,7 +3,8 @@
 Incidence structures (which protein yields which peptide) are realised as real FASTA entries: a protein is the
 concatenation of 7-residue tryptic peptides (missed_cleavages=0, min_length=6 -> its digest is exactly that set), a
 protein without peptides is "ACK" or an empty record. Decoy entries are written by hand (interior of every tryptic
-piece reversed, name prefixed), so the decoy half mirrors the target half.
+piece reversed, name prefixed), so the decoy half mirrors the target half; grouping_decoys_sharing_peptides instead puts
+the decoy prefix on arbitrary subsets of the entries of a structure, so that decoys and targets have peptides in common.
 
 Oracle, from the statement (groups are only observable through the maps of the Proteins object: a group is a value of
 peptide_map or a "; "-separated item of a shared_peptides value, its members are the ", "-separated names, its
@@ -516,6 +517,116 @@ def check_partial_decoys(tier, seed):
     return ck
 
 
+# ------------------------------------------------------------------ decoy-prefixed entries sharing peptides with targets
+def cross_names(is_decoy, rot, prefix=PREFIX):
+    """entry names: targets are p<i>; the k-th decoy-prefixed entry is named after a target (prefix + p<j>, rotating
+    by rot) as long as unpaired targets are left, the others after no target entry at all (prefix + q<i>)"""
+    t = [i for i, dflag in enumerate(is_decoy) if not dflag]
+    names = {}
+    k = 0
+    for i, dflag in enumerate(is_decoy):
+        if not dflag:
+            names[i] = "p%d" % i
+        elif k < len(t):
+            names[i] = prefix + "p%d" % t[(k + rot) % len(t)]
+            k += 1
+        else:
+            names[i] = prefix + "q%d" % i
+    return [names[i] for i in range(len(is_decoy))]
+
+
+def cross_nontrivial(prot_peps, prefix):
+    """some decoy-prefixed entry shares a peptide with some target entry (overlap, containment or equality)"""
+    return any(a & b for m, a in prot_peps.items() if m.startswith(prefix)
+               for n, b in prot_peps.items() if not n.startswith(prefix))
+
+
+def check_decoys_sharing_peptides(tier, seed):
+    from harness.c17 import oracle as digest_oracle
+    max_prot, n_pep = (3, 3) if tier == "quick" else (4, 4)
+    n_rand = 150 if tier == "quick" else 1500
+    structs = [c for c in structures(max_prot, n_pep) if len(c) >= 2]
+    rng = random.Random(seed + 1609)
+    ck = Check("grouping_decoys_sharing_peptides", "mokapot.parsers.fasta.read_fasta, _group_proteins",
+               "exhaustive: all %d incidence structures of 2..%d FASTA entries x %d peptides (multisets of peptide "
+               "subsets; entries without peptides included) x every assignment of the decoy prefix to a non-empty proper "
+               "subset of the entries that leaves a peptide-yielding target (the decoy-prefixed entries carry the SAME "
+               "peptides as the structure says, not mirrored ones, so a decoy's peptide set may be contained in / equal "
+               "to / overlap a target's and vice versa) x %s, missed_cleavages=0, min_length=6; random: %d databases "
+               "(seed %d) of 3..8 entries built as in grouping_random, each entry decoy-prefixed with probability 1/2 "
+               "(>= 1 target, >= 1 decoy), x 2 entry orders, missed_cleavages 0..2, clip_nterm_methionine on/off, "
+               "min_length in {6,7,8}, prefix in {decoy_, rev_}; in-process under one hash seed"
+               % (len(structs), max_prot, n_pep,
+                  "all entry orders" if tier == "quick" else "entry order in {as listed, reversed}", n_rand, seed),
+               "as grouping_exhaustive: every statement clause over ALL peptide-yielding entries regardless of prefix "
+               "(maximal peptide sets computed over targets and decoys together), targets paired with prefix+name, "
+               "has_decoys tells whether such a decoy yields a peptide, canonical result equal for the entry orders "
+               "tried; decoy-prefixed entries are named after a target entry or (when there are more decoys than "
+               "targets) after none; non-trivial = a decoy-prefixed entry and a target entry have a peptide in common")
+    viols = []
+
+    def group(key, record_sets, prot_peps, kw, prefix, d):
+        nt = cross_nontrivial(prot_peps, prefix)
+        first = None
+        for records in record_sets:
+            ck.case((key, tuple(r[0] for r in records)), nontrivial=nt)
+            inp = dict(kw, records=records, prefix=prefix)
+            try:
+                problems, canon = run_one(records, prot_peps, d, prefix=prefix, **kw)
+            except Exception as e:                                               # noqa: BLE001
+                viols.append(("decoys-sharing-peptides-read_fasta-raises", "%s: %s" % (type(e).__name__, e), inp))
+                continue
+            for case, what in problems:
+                viols.append(("decoys-sharing-peptides-" + case, what, inp))
+            if first is None:
+                first = (canon, records)
+            elif canon != first[0]:
+                viols.append(("decoys-sharing-peptides-grouping-depends-on-entry-order", "orders %s and %s"
+                              % ([r[0] for r in first[1]], [r[0] for r in records]), dict(inp, records_b=first[1])))
+
+    with scratch("c16_") as d:
+        kw0 = dict(missed_cleavages=0)
+        for si, combo in enumerate(structs):
+            n = len(combo)
+            seqs = [seq_of(m, n_pep, (si + j) % 2) for j, m in enumerate(combo)]
+            sets = [frozenset(PEPS[i] for i in range(n_pep) if m >> i & 1) for m in combo]
+            ident = tuple(range(n))
+            orders = list(itertools.permutations(ident)) if tier == "quick" else [ident, ident[::-1]]
+            for bits in range(1, 2 ** n - 1):
+                is_decoy = [bool(bits >> i & 1) for i in range(n)]
+                if not any(sets[i] for i in range(n) if not is_decoy[i]):
+                    continue                                  # no target yields a peptide: rejected by design
+                names = cross_names(is_decoy, si)
+                prot_peps = {names[i]: sets[i] for i in range(n) if sets[i]}
+                group(("x", combo, bits), [[(names[i], seqs[i]) for i in o] for o in orders], prot_peps, kw0, PREFIX, d)
+        for c in range(n_rand):
+            n = rng.randint(3, 8)
+            seqs = []
+            for _ in range(n):
+                if seqs and rng.random() < 0.35:               # sub-sequence of an earlier entry: nested sets
+                    base = seqs[rng.randrange(len(seqs))]
+                    k = len(base) // 7
+                    a = rng.randrange(k)
+                    seqs.append(base[7 * a:7 * rng.randint(a + 1, k)])
+                else:
+                    seqs.append("".join(rng.sample(POOL, rng.randint(1, 4))))
+            kw = dict(missed_cleavages=rng.choice([0, 1, 2]), clip_nterm_methionine=rng.random() < 0.5,
+                      min_length=rng.choice([6, 6, 7, 8]))
+            prefix = rng.choice(["decoy_", "rev_"])
+            is_decoy = [rng.random() < 0.5 for _ in range(n)]
+            a, b = rng.sample(range(n), 2)
+            is_decoy[a], is_decoy[b] = False, True
+            names = cross_names(is_decoy, rng.randrange(n), prefix)
+            records0 = list(zip(names, seqs))
+            prot_peps = digest_all(records0, kw, digest_oracle)
+            if not any(not m.startswith(prefix) for m in prot_peps):
+                continue                                      # no target yields a peptide: rejected by design
+            orders = [tuple(range(n)), tuple(rng.sample(range(n), n))]
+            group(("r", c), [[records0[i] for i in o] for o in orders], prot_peps, kw, prefix, d)
+    _feed(ck, viols)
+    return ck
+
+
 def REPLAY(check_name, violation):
     from harness.c17 import oracle as digest_oracle
     inp = violation["input"]
@@ -559,7 +670,8 @@ if __name__ == "__main__":
         os.execve(sys.executable, [sys.executable, "-m", "harness.c16"] + a0,
                   dict(os.environ, PYTHONHASHSEED=str(int(seed0) % 4294967295)))
     a = args()
-    emit([check_exhaustive(a.tier, a.seed), check_random(a.tier, a.seed), check_partial_decoys(a.tier, a.seed)],
+    emit([check_exhaustive(a.tier, a.seed), check_random(a.tier, a.seed), check_partial_decoys(a.tier, a.seed),
+          check_decoys_sharing_peptides(a.tier, a.seed)],
          ["groups are observed through peptide_map / shared_peptides values only (read_fasta does not return the "
           "group table); protein names contain neither ', ' nor '; '",
           "databases in which no target yields a peptide are excluded (read_fasta raises ValueError by design)",
@@ -568,6 +680,10 @@ if __name__ == "__main__":
           "that yields no peptide inside the length window), no decoy entry without its target entry; 'paired with "
           "the equally named prefixed decoy' is read as protein_map[target] == prefix + target for every target that "
           "yields a peptide, whether or not that decoy is in the file (as for target-only databases)",
+          "grouping_decoys_sharing_peptides: the grouping clauses are read as applying to all peptide-yielding entries "
+          "regardless of prefix, so a decoy-prefixed entry whose peptides all occur in a target entry (hand-made decoy "
+          "database, palindromic / low-complexity peptides surviving reversal) joins that target's group and vice "
+          "versa; decoy-prefixed entries named after no target entry are allowed there and are never paired",
           "quick tier: one hash seed (PYTHONHASHSEED is pinned to --seed by re-executing the module when it is not "
           "set); thorough tier: two further hash seeds in subprocesses",
           "digest correctness itself is C17; here peptide sets come from designed sequences / the C17 oracle"])
